@@ -299,10 +299,11 @@ class IMAPClientProxy:
                     # the client so it knows what message we had problems with.
                     #
                     logger.debug("*** Bad command! '%s'", imap_msg)
+                    err = str(e).replace("\r", " ").replace("\n", " ")
                     if imap_cmd.tag is not None:
-                        await self.push(f"{imap_cmd.tag} BAD {e}\r\n")
+                        await self.push(f"{imap_cmd.tag} BAD {err}\r\n")
                     else:
-                        await self.push(f"* BAD {e}\r\n")
+                        await self.push(f"* BAD {err}\r\n")
 
                     # A command we can not parse is answered with BAD. It is
                     # not a reason to drop the connection.
